@@ -239,6 +239,8 @@ class FuncModel:
 
     def handle(self, e: ast.expr, at: N | None, check_stale: bool = True) -> tuple[str, str] | None:
         """Canonical (diagram, node id) of a handle expression, following local aliases."""
+        while isinstance(e, ast.Call) and self._callee_name(e) == "cast" and len(e.args) == 2:
+            e = e.args[1]
         r = self.raw_handle(e)
         if r is not None:
             if not check_stale:
@@ -302,6 +304,8 @@ class FuncModel:
 
     def hkey(self, e: ast.expr, at: N | None) -> tuple | None:
         """Versioned key of a handle expression: (diagram vkey, node-id vkey)."""
+        while isinstance(e, ast.Call) and self._callee_name(e) == "cast" and len(e.args) == 2:
+            e = e.args[1]
         r = self.raw_handle(e)
         if r is None and isinstance(e, ast.Name):
             sd = self.single_def(e.id, at)
